@@ -11,7 +11,7 @@ LEVEL = 'exploration'
 BUDGET_S = {'quick': 35, 'thorough': 280}
 REQUIRED = {'all': ['oracle.grammar_checked', 'oracle.terminated_runs', 'oracle.connect_phase_runs']}
 RULE = ('bounded-exhaustive histories: handshake variant x every sequence of <= D server steps from a 17-step '
-        'alphabet (data/control/invalid frames, close variants, half frame, silence, EOF, ECONNRESET) x 14 '
+        'alphabet (data/control/invalid frames, close variants, half frame, silence, EOF, ECONNRESET) x 16 '
         'application policies (send/close at each event kind, at every event, send-then-close) x 3 timer '
         'settings on a virtual clock; D = 2 in quick (+ sampled depth 3..5), 3 in thorough (+ sampled 4..6). '
         'Online monitor = event-grammar automaton of the statement; termination = iterator ends within 2 '
@@ -56,6 +56,8 @@ HS = {
 SEND = ['send_text', 'x']
 POLICIES = {
     'passive': {},
+    'send@connecting': {'connecting': [SEND, ['send_ping', b'x']]},
+    'close@connecting': {'connecting': [['close']]},
     'send@connected': {'connected': [SEND]},
     'send@ready': {'ready': [SEND]},
     'send@poll': {'poll#0': [SEND]},
@@ -98,7 +100,7 @@ def cases(tier, seed, i, n):
 
 
 def connect_phase_cases():
-    for pn in ('passive', 'send@every', 'close@connected'):
+    for pn in ('passive', 'send@every', 'close@connected', 'close@connecting', 'send@connecting'):
         yield dict(kind='conn', what='gai', policy=pn)
         for naddr in (1, 2, 3):
             yield dict(kind='conn', what='refused', naddr=naddr, policy=pn)
@@ -156,6 +158,8 @@ def judge(run, w, acc, case):
     key = monitors.grammar_violation(names, run.end == 'stop')
     if key is None:
         key = monitors.run_end_violation(run, w)
+    if key is None and run.end == 'quiesced' and case.get('timer') in TIMERS:
+        key = overdue_timeout(run, w, TIMERS[case['timer']][0])
     if key == 'INCONCLUSIVE-budget':
         acc.inconclusive.append('step budget exceeded on %r' % (case,))
         return
@@ -172,6 +176,35 @@ def judge(run, w, acc, case):
         acc.cls('|'.join(n for n in names if n != 'poll') + '|' + str(run.end) + '|' + str(case.get('policy')) + '|' + str(case.get('timer')))
         if acc.counters['oracle']['grammar_checked'] % 9973 == 1:
             acc.sample(dict(case=case, events=names, end=run.end))
+
+
+def overdue_timeout(run, w, ckw):
+    """bounded progress: a connection that is still open at the end of the observation window although a
+    configured timeout has long elapsed has failed to terminate"""
+    if 'ready' not in run.names:
+        return None
+    t0 = run.times[run.names.index('ready')]
+    p = ckw.get('poll', 5.0)
+    now = w.now
+    ct = ckw.get('close_timeout')
+    if ct:
+        first = True
+        for e in w.log:
+            if e[0] == 'sendall':
+                if first:
+                    first = False
+                    continue
+                fr = refws.decode_client_stream(e[5])[0]
+                if fr and fr[0]['opcode'] == 8 and e[1] >= t0:
+                    if now - e[1] > ct + 2 * p + 1e-9:
+                        return 'no-termination-after-close-timeout-elapsed'
+                    break
+    pt = ckw.get('ping_timeout')
+    if pt:
+        last = max([t0] + [t for n, t in zip(run.names, run.times) if n == 'pong'])
+        if now - last > pt + 2 * p + 1e-9:
+            return 'no-termination-after-ping-timeout-elapsed'
+    return None
 
 
 def run_conn(case, acc):
